@@ -56,6 +56,16 @@ theorem c_sqrt_ofReal {r : ℝ} (hr : 0 ≤ r) : CScalar.sqrt (r : ℂ) = (Real.
   rw [c_sqrt, Real.sqrt_eq_rpow, Complex.ofReal_cpow hr]
   norm_num
 
+theorem getA_toArray (xs : List ℂ) (i : ℕ) : getA xs.toArray i = getK xs i := by
+  unfold getA getK
+  simp [Array.getD_eq_getD_getElem?, List.getD_eq_getElem?_getD]
+
+/-- the array-backed segment FFT is the sum over the list reads -/
+theorem segFft_eq (w x : List ℂ) (N s k : ℕ) :
+    segFft w x N s k = ∑ j ∈ range N, getK w j * getK x (s + j) * CScalar.twiddle N (j * k) := by
+  unfold segFft
+  simp only [sumRange_eq, getA_toArray, c_mul]
+
 theorem getK_map_ofReal (xs : List ℝ) (i : ℕ) :
     getK (xs.map ((↑) : ℝ → ℂ)) i = ((xs.getD i 0 : ℝ) : ℂ) := by
   unfold getK
